@@ -555,7 +555,7 @@ func runCursorSweep(c *core.Ctx, typ string) {
 func runCursorRandom(c *core.Ctx, typ string) {
 	r := c.R
 	n := []int{0, 1, 2, 3, r.Range(4, 12), r.Range(4, 12), r.Range(13, 70)}[r.Intn(7)]
-	big := c.Index%151 == 29
+	big := c.Index%151 == 29 && !c.Concurrent
 	if big {
 		n = r.Range(300, 1500) // deep trees, long lists, large rings
 		c.Count("obs:big-iterated-containers", 1)
